@@ -81,6 +81,7 @@ func C13(p *load.Prog, r *oblig.Run) {
 		"API function that directly stores such a field on an object it did not allocate must be able to reach an invalidation of that cache (a store to its field/flag/variable or a mutating call on its sync.Map)."
 	r.NotDecided = "equality of each view with a fresh decode as values; that an invalidation happens on every path and under the right condition (may, not must); value/tag/pointer edits (SetValue-style) against caches; purity of html.Publisher.Publish (too large for the interpreter's budget; its node-state writes are covered by R19.e's region analysis instead)."
 	r.Assumptions = e4Assumptions()
+	defer sortsInternal(p, r, "R13.g")
 	r.Rule("R13.a", "read-only operations perform no structural write on the document or nodes they are given", 150)
 	r.Rule("R13.c", "all fills of the document's pointer index use the same store operation (they agree on which record wins a duplicated pointer)", 1)
 	c13PointerFills(p, r)
